@@ -79,3 +79,126 @@ Print Assumptions C03_resolution_terminates.
 Theorem C03_chain_terminates : forall sel ops s, follows sel ops -> run_chain sel ops s <> None.
 Proof. exact run_chain_total. Qed.
 Print Assumptions C03_chain_terminates.
+
+From SV Require Import Resolve.Op Resolve.Apply Resolve.Process Resolve.Order Resolve.Terminal Resolve.Extend Resolve.Earliest Resolve.Chrono.
+Local Close Scope Z_scope.
+
+(* the resolved state is the left fold of Apply over the chosen create followed by the applied operations, in the order of application (no hypothesis) *)
+Theorem C03_resolved_state_is_fold :
+  forall (fops : list aop) (c0 : aop) (s : state) (ap : list aop),
+         resolve_core fops = inr (Some (c0, s, ap)) -> state_after c0 ap = Some s.
+Proof. exact resolved_state_is_fold. Qed.
+Print Assumptions C03_resolved_state_is_fold.
+
+(* independent chronological characterisation: on a strictly ordered, causal history without empty reveals, Resolve (create choice, state, effective applied operations, errors) equals ONE pass over the operations in processing order in which an operation takes effect iff it reveals the commitment in force when it is reached and Apply accepts it; forks are allowed *)
+Theorem C03_resolve_is_chronological_pass :
+  forall fops : list aop,
+         strictly_ordered fops ->
+         no_zero_reveal fops -> causal fops -> resolve_core fops = chrono_outcome fops.
+Proof. exact resolve_core_is_chrono. Qed.
+Print Assumptions C03_resolve_is_chronological_pass.
+
+(* the state of the chronological pass is the left fold of Apply over the operations that took effect, in the order in which they are reached *)
+Theorem C03_chronological_pass_is_fold :
+  forall l : list aop,
+         fold_apply (taken l init_state) init_state = Some (fst (fst (chrono l))).
+Proof. exact chrono_is_fold. Qed.
+Print Assumptions C03_chronological_pass_is_fold.
+
+(* hence the resolved state is that fold *)
+Theorem C03_resolved_state_chronological :
+  forall (fops : list aop) (c0 : aop) (s : state) (ap : list aop),
+         strictly_ordered fops ->
+         no_zero_reveal fops ->
+         causal fops ->
+         resolve_core fops = inr (Some (c0, s, ap)) ->
+         fold_apply (taken fops init_state) init_state = Some s /\ chrono fops = (s, Some c0, ap).
+Proof. exact resolved_state_chronological. Qed.
+Print Assumptions C03_resolved_state_chronological.
+
+(* the ordering hypothesis holds for what prepare produces when the anchored operations are pairwise distinct with distinct coordinates *)
+Theorem C03_prepared_strictly_ordered :
+  forall pub unpub : list aop,
+         stores_ok pub unpub ->
+         NoDup pub -> key_inj pub -> strictly_ordered (sort_ops pub ++ sort_ops unpub).
+Proof. exact prepared_strictly_ordered. Qed.
+Print Assumptions C03_prepared_strictly_ordered.
+
+(* store-level form *)
+Theorem C03_resolve_full_is_chronological_pass :
+  forall pub unpub : list aop,
+         stores_ok pub unpub ->
+         NoDup pub ->
+         key_inj pub ->
+         no_zero_reveal (pub ++ unpub) ->
+         causal (sort_ops pub ++ sort_ops unpub) ->
+         resolve_full pub unpub no_opts = chrono_outcome (sort_ops pub ++ sort_ops unpub).
+Proof. exact resolve_full_is_chrono. Qed.
+Print Assumptions C03_resolve_full_is_chronological_pass.
+
+(* an update processed last that does not reveal the update commitment in force, or that Apply rejects, changes nothing (no hypothesis on the list: the first valid candidate in list order wins) *)
+Theorem C03_appended_update_inert :
+  forall (fops : list aop) (c0 : aop) (s : state) (ap : list aop) (o : aop),
+         resolve_core fops = inr (Some (c0, s, ap)) ->
+         ty o = Update ->
+         reveal_c o <> upd s \/ apply o s = None ->
+         resolve_core (fops ++ [o]) = inr (Some (c0, s, ap)).
+Proof. exact update_snoc_inert. Qed.
+Print Assumptions C03_appended_update_inert.
+
+(* likewise for a recover / deactivate *)
+Theorem C03_appended_full_inert :
+  forall (fops : list aop) (c0 : aop) (s : state) (ap : list aop) (o : aop),
+         resolve_core fops = inr (Some (c0, s, ap)) ->
+         is_full o = true ->
+         reveal_c o <> rec s \/ apply o s = None ->
+         resolve_core (fops ++ [o]) = inr (Some (c0, s, ap)).
+Proof. exact full_snoc_inert. Qed.
+Print Assumptions C03_appended_full_inert.
+
+(* a further create processed last changes nothing *)
+Theorem C03_appended_create_inert :
+  forall (fops : list aop) (c0 : aop) (s : state) (ap : list aop) (o : aop),
+         processing_order (fops ++ [o]) ->
+         resolve_core fops = inr (Some (c0, s, ap)) ->
+         ty o = Create -> resolve_core (fops ++ [o]) = inr (Some (c0, s, ap)).
+Proof. exact create_snoc_inert. Qed.
+Print Assumptions C03_appended_create_inert.
+
+(* the first valid create, processed after operations none of which reveals a commitment it installs, resolves to its own state with nothing applied *)
+Theorem C03_first_create_defines :
+  forall (l : list aop) (c : aop) (s0 : state),
+         no_valid_create l ->
+         ty c = Create ->
+         apply c init_state = Some s0 ->
+         no_zero_reveal l ->
+         (forall q : aop, In q l -> not_ahead q c) ->
+         resolve_core (l ++ [c]) = inr (Some (c, s0, [])).
+Proof. exact first_create_snoc. Qed.
+Print Assumptions C03_first_create_defines.
+
+(* non-vacuity: the hypotheses hold for a history with a fork *)
+Theorem C03_nonvacuous_fork :
+  strictly_ordered c_fork /\ no_zero_reveal c_fork /\ causal c_fork.
+Proof. exact c_fork_hyps. Qed.
+Print Assumptions C03_nonvacuous_fork.
+
+(* and for a full life cycle with operations before the create, an invalid create, a recover, a deactivate and operations after it *)
+Theorem C03_nonvacuous_life :
+  strictly_ordered c_life /\ no_zero_reveal c_life /\ causal c_life.
+Proof. exact c_life_hyps. Qed.
+Print Assumptions C03_nonvacuous_life.
+
+(* causality cannot be dropped even for fork-free histories: an operation anchored before the operation that commits to its key is applied by Resolve (chain order), not by the chronological pass *)
+Theorem C03_needs_causal :
+  strictly_ordered c_out_of_order /\
+         no_zero_reveal c_out_of_order /\
+         NoDup (map reveal_c (filter (fun o : aop => negb (is_ty Create o)) c_out_of_order)) /\
+         ~ causal c_out_of_order /\
+         (exists s : state,
+            resolve_core c_out_of_order = inr (Some (h_create, s, [h_upd1; k_bridge; k_orphan])) /\
+            upd s = 23%Z) /\
+         (exists s : state,
+            chrono c_out_of_order = (s, Some h_create, [h_upd1; k_bridge]) /\ upd s = 22%Z).
+Proof. exact needs_causal. Qed.
+Print Assumptions C03_needs_causal.
